@@ -160,6 +160,14 @@ def make_items(ctx: Ctx, count: int, start: int):
         d = specgen.generate(rng, allow=trig, prof={"opid_shapes": True, "p_stream": 0.5 if "stream_with_secondary_2xx" in trig else 0.12,
                                                      "p_multi2xx": 0.8 if "stream_with_secondary_2xx" in trig else 0.25,
                                                      "p_multi_media": 0.1})
+        if rng.random() < 0.25:
+            # one tag spelled in several ways (case / punctuation / word split): endpoints, client and mocks must agree
+            fam = rng.choice([["petstore", "petStore", "PetStore"], ["DataSources", "datasources", "data_sources"], ["users", "Users", "USERS"]])
+            for pth, item in d.doc["paths"].items():
+                for meth, op in item.items():
+                    if isinstance(op, dict) and "responses" in op and rng.random() < 0.7:
+                        op["tags"] = [rng.choice(fam)]
+            d.features.add("tag_spelling_variants")
         items.append({"doc": d, "layout": rng.randrange(len(LAYOUTS)), "strategy": rng.choice(STRATEGIES),
                       "n": start + k, "trigger": trig})
     return items
